@@ -5,6 +5,7 @@ from .. import astutil as A
 from .. import paths as P
 from ..loader import methods
 from ..selftest.runner import M, TW, V
+from . import common as K
 
 PROPERTY = "C09"
 EXPLANATION = (
@@ -498,7 +499,31 @@ def check_dsum(ctx):
                 n += 1
                 v = a.value
                 ok = False
-                if isinstance(v, ast.Call) and A.src(v.func) == "self._dcontext.add":
+                al = K.func_aliases(fn)
+                if isinstance(v, ast.Name) and v.id not in A.func_params(fn):
+                    # the sum is carried in a local and stored back: on every path to the store the local holds
+                    # <context>.add(<what _total held>, ..)
+                    ok = True
+                    n_p = 0
+                    for p in P.paths_of(fn):
+                        i = p.index(a)
+                        if i < 0:
+                            continue
+                        n_p += 1
+                        last = K.value_on_path(p, v, i)
+                        okp = isinstance(last, ast.Call) and A.src(K.expand(last.func, al)) == "self._dcontext.add" and len(last.args) == 2
+                        if okp:
+                            j = max([k for k, e in enumerate(p.ev[:i]) if e[0] in ("stmt", "partial") and any(x is last for x in ast.walk(e[1]))] or [i])
+                            first = K.value_on_path(p, last.args[0], j)
+                            seen = 0
+                            while isinstance(first, ast.Call) and A.src(K.expand(first.func, al)) == "self._dcontext.add" and seen < 3:
+                                # the retry loop unrolled: the previous attempt's (failed) result is never the operand
+                                seen += 1
+                                break
+                            okp = A.src(first) == "self._total"
+                        ok = ok and okp
+                    ok = ok and n_p > 0
+                elif isinstance(v, ast.Call) and A.src(K.expand(v.func, al)) == "self._dcontext.add":
                     ok = len(v.args) == 2 and A.src(v.args[0]) == "self._total"
                 elif isinstance(v, ast.Call) and res.canon(v.func) == "decimal.Decimal" and len(v.args) == 1:
                     arg = v.args[0]
@@ -522,10 +547,11 @@ def check_dsum(ctx):
         tries = [t for t in l.body if isinstance(t, ast.Try)]
         if tries:
             t = tries[0]
-            has_add = any(isinstance(c, ast.Call) and A.src(c.func) == "self._dcontext.add" for s in t.body for c in ast.walk(s))
+            al = K.func_aliases(fill)
+            has_add = any(isinstance(c, ast.Call) and A.src(K.expand(c.func, al)) == "self._dcontext.add" for s in t.body for c in ast.walk(s))
             has_break = any(isinstance(s, ast.Break) for s in t.body)
             h = [h for h in t.handlers if h.type is not None and res.canon(h.type) == "decimal.Inexact"]
-            raises_prec = bool(h) and any(isinstance(s, ast.AugAssign) and A.src(s.target) == "self._dcontext.prec"
+            raises_prec = bool(h) and any(isinstance(s, ast.AugAssign) and A.src(K.expand(s.target, al)) == "self._dcontext.prec"
                                           and isinstance(s.op, ast.Add) for s in h[0].body)
             no_break_in_handler = bool(h) and not any(isinstance(s, (ast.Break, ast.Return)) for s in ast.walk(h[0]))
             ok = has_add and has_break and raises_prec and no_break_in_handler and A.is_const(l.test, True)
